@@ -39,7 +39,7 @@ def np_of(dkind, vals, r=None):
     return np.array(vals, dtype=str)
 
 
-FILL = {"float": "nan", "integer": -2147483648, "boolean": 0, "referenced": -2147483648}
+FILL = {"float": "nan", "integer": -2147483648, "boolean": 0, "referenced": -2147483648, "text": ""}
 
 
 class Obj:
@@ -316,7 +316,7 @@ class GeometryScenario(BaseScenario):
         length = n
         if mode == "short" and n > 1 and dkind in FILL and dkind != "referenced":
             length = r.randrange(1, n)
-        elif mode == "long" and dkind != "text":
+        elif mode == "long":
             length = n + r.randint(1, 2)
         name = f"d{len(obj.data)}_{dkind}"
         if dkind == "float" and mode == "exact" and n and r.random() < 0.15:
@@ -369,9 +369,9 @@ class GeometryScenario(BaseScenario):
             return "skipped"
         mode = r.choices(["exact", "short", "long"], [6, 2, 2])[0]
         length = n
-        if mode == "short" and n > 1 and d["dkind"] in ("float", "integer", "boolean"):
+        if mode == "short" and n > 1 and d["dkind"] in ("float", "integer", "boolean", "text"):
             length = r.randrange(1, n)
-        elif mode == "long" and d["dkind"] != "text":
+        elif mode == "long":
             length = n + 1
         shift = r.randrange(1, 50)
         vals = [value_of(d["dkind"], (order[i] if i < n else 7) + (shift if d["dkind"] not in ("boolean",) else 1)) for i in range(length)]
